@@ -66,6 +66,13 @@ const KNOWN_RULES: &[&str] = &[
     "iter_loop",
     "alloc_reserve",
     "into_from",
+    "iter_search",
+    "for_iter",
+    "param_pat",
+    "parse_turbofish",
+    "opt_and_then",
+    "res_map_err",
+    "pub_fields",
 ];
 
 pub fn apply(repo: &str, req: &ItemReq, f: &mut FnUnderEdit) -> Result<(), String> {
@@ -178,6 +185,32 @@ pub fn apply(repo: &str, req: &ItemReq, f: &mut FnUnderEdit) -> Result<(), Strin
         let n = v.n;
         f.fire("std_net", n);
     }
+    // R39 non-identifier parameter patterns -> `__vx_pK: T` + `let PAT = __vx_pK;` as the first statement
+    if has("param_pat") {
+        let n = param_pat(&mut f.sig, &mut f.block);
+        f.fire("param_pat", n);
+    }
+    // R35 `X.iter()/into_iter() [.map(c) | .filter(c)]* .any(c) / .all(c) / .max_by_key(c)` -> explicit (short-circuit) loop
+    if has("iter_search") {
+        let mut v = IterSearch { n: 0, types: req.search_types.clone() };
+        v.visit_block_mut(&mut f.block);
+        let n = v.n;
+        f.fire("iter_search", n);
+    }
+    // R38 `for P in E { B }` (E not a range) -> loop over the model iterator of `IntoIterator::into_iter(E)`
+    if has("for_iter") {
+        let mut v = ForIter { n: 0 };
+        v.visit_block_mut(&mut f.block);
+        let n = v.n;
+        f.fire("for_iter", n);
+    }
+    // R36 `E.parse::<T>()` -> `vx_parse_T(E)`
+    if has("parse_turbofish") {
+        let mut v = ParseTurbofish { n: 0 };
+        v.visit_block_mut(&mut f.block);
+        let n = v.n;
+        f.fire("parse_turbofish", n);
+    }
     // R32 `X.iter()/into_iter() [.map(c) | .filter(c)]* .collect()` -> explicit loop over model iterator / collector traits
     if has("iter_loop") {
         let mut v = IterLoop { n: 0, types: req.collect_types.clone() };
@@ -193,8 +226,8 @@ pub fn apply(repo: &str, req: &ItemReq, f: &mut FnUnderEdit) -> Result<(), Strin
         f.fire("spawn_drop", n);
     }
     // R29 Option combinators with a function argument -> match
-    if has("opt_match") || has("opt_map") {
-        let mut v = OptMatch { n: 0, map: has("opt_map"), others: has("opt_match") };
+    if has("opt_match") || has("opt_map") || has("opt_and_then") || has("res_map_err") {
+        let mut v = OptMatch { n: 0, map: has("opt_map"), others: has("opt_match"), and_then: has("opt_and_then"), map_err: has("res_map_err") };
         v.visit_block_mut(&mut f.block);
         let n = v.n;
         f.fire("opt_match", n);
@@ -360,6 +393,21 @@ pub fn apply_item(
     fired: &mut BTreeMap<String, usize>,
 ) -> Result<(), String> {
     let has = |r: &str| req.rules.iter().any(|x| x == r);
+    // R40 struct fields become `pub` (visibility only: contracts of other modules' functions name them)
+    if has("pub_fields") {
+        if let syn::Item::Struct(s) = item {
+            let mut n = 0;
+            for f in s.fields.iter_mut() {
+                if !matches!(f.vis, syn::Visibility::Public(_)) {
+                    f.vis = syn::parse_quote!(pub);
+                    n += 1;
+                }
+            }
+            if n > 0 {
+                *fired.entry("pub_fields".into()).or_insert(0) += n;
+            }
+        }
+    }
     if has("attrs") {
         let mut n = 0;
         match item {
@@ -652,6 +700,10 @@ struct OptMatch {
     /// also rewrite `o.map(F)` (R29b, rule `opt_map`)
     map: bool,
     others: bool,
+    /// `o.and_then(F)` -> `match o { Some(v) => F(v), None => None }` (rule `opt_and_then`)
+    and_then: bool,
+    /// `r.map_err(F)` -> `match r { Ok(v) => Ok(v), Err(e) => Err(F(e)) }` (rule `res_map_err`)
+    map_err: bool,
 }
 // ---------------------------------------------------------------- R31
 /// statement `tokio::spawn(async move { .. });` (a detached task whose handle is discarded) is removed
@@ -727,6 +779,16 @@ impl VisitMut for OptMatch {
             if name == "map" && self.map && m.args.len() == 1 {
                 if let Some(app) = opt_apply(&m.args[0], &v) {
                     *e = syn::parse_quote!(match #recv { Some(#v) => Some(#app), None => None });
+                    self.n += 1;
+                }
+            } else if name == "map_err" && self.map_err && m.args.len() == 1 {
+                if let Some(app) = opt_apply(&m.args[0], &v) {
+                    *e = syn::parse_quote!(match #recv { Ok(__vx_ok) => Ok(__vx_ok), Err(#v) => Err(#app) });
+                    self.n += 1;
+                }
+            } else if name == "and_then" && self.and_then && m.args.len() == 1 {
+                if let Some(app) = opt_apply(&m.args[0], &v) {
+                    *e = syn::parse_quote!(match #recv { Some(#v) => #app, None => None });
                     self.n += 1;
                 }
             } else if !self.others {
@@ -991,7 +1053,7 @@ impl VisitMut for IterLoop {
                         };
                     }
                     let start: syn::Expr = if by_ref {
-                        syn::parse_quote!(VxIterRef::vx_iter(&#base))
+                        syn::parse_quote!((#base).vx_iter())
                     } else {
                         syn::parse_quote!(VxIntoIter::vx_into_iter(#base))
                     };
@@ -1018,6 +1080,172 @@ impl VisitMut for IterLoop {
             }
         }
     }
+}
+
+
+// ---------------------------------------------------------------- R35
+/// `CHAIN.any(|P| C)`, `CHAIN.all(|P| C)`, `CHAIN.max_by_key(|P| K)` where CHAIN is what R32 accepts: written out as the loop
+/// `Iterator::any/all/max_by_key` run (short-circuit for any/all; max_by_key keeps the *last* of several maxima, as std's
+/// `reduce(|x, y| if x.0 > y.0 { x } else { y })` does)
+struct IterSearch {
+    n: usize,
+    types: Vec<String>,
+}
+impl VisitMut for IterSearch {
+    fn visit_expr_mut(&mut self, e: &mut syn::Expr) {
+        visit_mut::visit_expr_mut(self, e);
+        if let syn::Expr::MethodCall(m) = e {
+            let name = m.method.to_string();
+            if !(name == "any" || name == "all" || name == "max_by_key") || m.args.len() != 1 {
+                return;
+            }
+            let c = match &m.args[0] {
+                syn::Expr::Closure(c) if c.inputs.len() == 1 && c.asyncness.is_none() => c.clone(),
+                _ => return,
+            };
+            let mut hr = HasReturn(false);
+            syn::visit::Visit::visit_expr(&mut hr, &c.body);
+            if hr.0 {
+                return;
+            }
+            let Some((base, by_ref, ads)) = iter_chain(&m.receiver) else { return };
+            let pat = closure_pat(&c);
+            let body = &c.body;
+            let (init, mut inner, fin): (syn::Expr, syn::Expr, syn::Expr) = match name.as_str() {
+                "any" => (
+                    syn::parse_quote!(false),
+                    syn::parse_quote!({ if { let #pat = __vx_x; #body } { __vx_res = true; break; } }),
+                    syn::parse_quote!(__vx_res),
+                ),
+                "all" => (
+                    syn::parse_quote!(true),
+                    syn::parse_quote!({ if !{ let #pat = __vx_x; #body } { __vx_res = false; break; } }),
+                    syn::parse_quote!(__vx_res),
+                ),
+                _ => (
+                    syn::parse_quote!(None),
+                    syn::parse_quote!({
+                        let __vx_k = { let #pat = &__vx_x; #body };
+                        __vx_res = match __vx_res {
+                            Some((__vx_bk, __vx_bx)) => if __vx_bk > __vx_k { Some((__vx_bk, __vx_bx)) } else { Some((__vx_k, __vx_x)) },
+                            None => Some((__vx_k, __vx_x)),
+                        };
+                    }),
+                    syn::parse_quote!(match __vx_res { Some((__vx_bk, __vx_bx)) => Some(__vx_bx), None => None }),
+                ),
+            };
+            for a in ads.iter().rev() {
+                inner = match a {
+                    Adaptor::Map(c) => {
+                        let pat = closure_pat(c);
+                        let body = &c.body;
+                        syn::parse_quote!({ let __vx_x = { let #pat = __vx_x; #body }; #inner })
+                    }
+                    Adaptor::Filter(c) => {
+                        let pat = closure_pat(c);
+                        let body = &c.body;
+                        syn::parse_quote!({ if { let #pat = &__vx_x; #body } #inner })
+                    }
+                    Adaptor::MapPath(p) => syn::parse_quote!({ let __vx_x = #p(__vx_x); #inner }),
+                };
+            }
+            let start: syn::Expr = if by_ref {
+                syn::parse_quote!((#base).vx_iter())
+            } else {
+                syn::parse_quote!(VxIntoIter::vx_into_iter(#base))
+            };
+            let asc = self.types.get(self.n).and_then(|t| if t.is_empty() { None } else { parse_type(t).ok() });
+            let decl: syn::Stmt = match (asc, name.as_str()) {
+                (Some(t), _) => syn::parse_quote!(let mut __vx_res: #t = #init;),
+                (None, "max_by_key") => syn::parse_quote!(let mut __vx_res = #init;),
+                _ => syn::parse_quote!(let mut __vx_res: bool = #init;),
+            };
+            *e = syn::parse_quote!({
+                let mut __vx_it = #start;
+                #decl
+                loop {
+                    match __vx_it.next() {
+                        Some(__vx_x) => #inner,
+                        None => { break; }
+                    }
+                }
+                #fin
+            });
+            self.n += 1;
+        }
+    }
+}
+
+// ---------------------------------------------------------------- R38
+struct ForIter {
+    n: usize,
+}
+impl VisitMut for ForIter {
+    fn visit_expr_mut(&mut self, e: &mut syn::Expr) {
+        visit_mut::visit_expr_mut(self, e);
+        if let syn::Expr::ForLoop(f) = e {
+            if matches!(&*f.expr, syn::Expr::Range(_)) || f.label.is_some() {
+                return;
+            }
+            let (pat, it, body) = (&f.pat, &f.expr, &f.body);
+            *e = syn::parse_quote!({
+                let mut __vx_it = VxIntoIter::vx_into_iter(#it);
+                loop {
+                    match __vx_it.next() {
+                        Some(#pat) => #body,
+                        None => { break; }
+                    }
+                }
+            });
+            self.n += 1;
+        }
+    }
+}
+
+// ---------------------------------------------------------------- R36
+struct ParseTurbofish {
+    n: usize,
+}
+impl VisitMut for ParseTurbofish {
+    fn visit_expr_mut(&mut self, e: &mut syn::Expr) {
+        visit_mut::visit_expr_mut(self, e);
+        if let syn::Expr::MethodCall(m) = e {
+            if m.method == "parse" && m.args.is_empty() {
+                if let Some(tf) = &m.turbofish {
+                    if tf.args.len() == 1 {
+                        if let syn::GenericArgument::Type(syn::Type::Path(tp)) = &tf.args[0] {
+                            if let Some(id) = tp.path.get_ident() {
+                                let f = syn::Ident::new(&format!("vx_parse_{id}"), proc_macro2::Span::call_site());
+                                let recv = &m.receiver;
+                                *e = syn::parse_quote!(#f(#recv));
+                                self.n += 1;
+                            }
+                        }
+                    }
+                }
+            }
+        }
+    }
+}
+
+// ---------------------------------------------------------------- R39
+fn param_pat(sig: &mut syn::Signature, block: &mut syn::Block) -> usize {
+    let mut lets: Vec<syn::Stmt> = vec![];
+    for (k, a) in sig.inputs.iter_mut().enumerate() {
+        if let syn::FnArg::Typed(t) = a {
+            if !matches!(&*t.pat, syn::Pat::Ident(_)) {
+                let id = syn::Ident::new(&format!("__vx_p{k}"), proc_macro2::Span::call_site());
+                let pat = (*t.pat).clone();
+                lets.push(syn::parse_quote!(let #pat = #id;));
+                *t.pat = syn::parse_quote!(#id);
+            }
+        }
+    }
+    let n = lets.len();
+    for (i, l) in lets.into_iter().enumerate() {
+        block.stmts.insert(i, l);
+    }
+    n
 }
 
 // ---------------------------------------------------------------- R34
